@@ -31,6 +31,18 @@ CHECKS = {
             "Measurements: all spanning sub-ensembles (2..4 states, d=2,3) x priors x forms for PGM/PBM with a certified P_opt bracket; "
             "measure on all (state, Kraus set) pairs; is_povm on margin perturbations.",
             "numpy.random.bit_generator.randbits replaced by the harness (no source hook); P_opt bracket from own SDP + eigvalsh arithmetic; histories beyond depth 3 not explored"),
+    "C20": ("exploration",
+            "exhaustive enumeration of a finite channel catalogue (maps, ordered pairs, pair x unitary) on the real code vs certified SDP brackets and closed forms",
+            "Every map / ordered pair / (pair, unitary) of a finite catalogue of qubit (thorough: qutrit) maps - unitary channels from the unitary "
+            "catalogue, mixtures, damping families, Stinespring CPTP maps from seed-derived unitaries, CP non-TP maps, differences of channels, "
+            "generic Hermiticity-preserving and non-Hermitian Choi matrices - is run through completely_bounded_trace_norm / diamond_distance / "
+            "completely_bounded_spectral_norm / channel_fidelity (local dims 2,3,4,5) / channel fidelity_of_separability. The cb trace norm must lie in a "
+            "bracket [L,U] obtained from the harness's own Watrous primal and dual points whose feasibility is verified by eigvalsh arithmetic "
+            "(weak duality makes the bracket independent of any solver being right); closed forms: 2 sqrt(1-delta^2) and delta for unitary pairs, "
+            "replacer channels, ||Phi*(I)||; relations: symmetry, zero/one on equal channels, Choi trace-norm bounds, homogeneity, unitary invariance, "
+            "upper bounds from explicit input states.",
+            "tolerances 1e-4 (picos/cvxopt) and 2e-3..5e-3 (SCS); only cvxopt is available to picos; channel_fidelity has no independent lower-bound "
+            "certificate (relations + closed forms only); CVXOPT numerical breakdowns are counted as indeterminate"),
 }
 
 PENDING_REASON = "check not built yet in this session (work in progress; see DESIGN.md section 7 for the planned exploration)"
